@@ -116,12 +116,20 @@ def convertArgs : Result → Status × Option (List DetailIn) × Option (List Na
   | .skip (.reason r) => (.skip, none, some r)
   | .skip (.details ds) => (.skip, some ds, none)
 
+/-- `if details is not None: for name, content in details.items(): …` -/
+def detailPart (id : Nat) (ts : Ts) : Option (List DetailIn) → List Event
+  | some ds => detailEvents id ts ds
+  | none => []
+
+/-- `if reason is not None:` the reason file, utf8, `text/plain; charset=utf8` -/
+def reasonPart (id : Nat) (ts : Ts) : Option (List Nat) → List Event
+  | some rs => [fileEvent id ts 0 1 (encode rs) true]
+  | none => []
+
 /-- `_convert(test, err, details, status, reason)` at time `ts` with current tags `tags` -/
 def convert (id : Nat) (ts : Ts) (tags : List Nat) (r : Result) : List Event :=
   let a := convertArgs r
-  (match a.2.1 with | some ds => detailEvents id ts ds | none => [])
-    ++ (match a.2.2 with | some rs => [fileEvent id ts 0 1 (encode rs) true] | none => [])
-    ++ [{ blank id ts with status := some a.1, tags := some tags }]
+  detailPart id ts a.2.1 ++ reasonPart id ts a.2.2 ++ [{ blank id ts with status := some a.1, tags := some tags }]
 
 /-- the decorator's state between tests: run-level tags, the last `time()` value -/
 structure St where
